@@ -166,7 +166,8 @@ def work(arg):
     elif kind == 'model':
         name, how = spec
         for target in ('string', 'file'):
-            mk = core.call(g.mk_model, cfg, name, meta_small, fitted_dr=(how == 'fitted'))
+            mk = core.call(g.mk_model, cfg, name, meta_small, fitted_dr=(how == 'fitted'),
+                           params=({'K': 3.456789e-06, 'n_m': 4.5123456789} if how == 'small-parameters' else None))
             if not mk.ok:
                 res['viol'].append(core.make_violation({'check': 'cannot-build', 'model': name, 'built': how},
                                                        f'[model] {name} ({how}) with units {cfg}: {mk.brief()}', {'units': cfg, 'model': name}))
@@ -196,6 +197,8 @@ def run(ctx):
             jobs.append(('model', cfg, (name, 'instance'), ctx.scale))
             if name in ('DR', 'DA'):
                 jobs.append(('model', cfg, (name, 'fitted'), ctx.scale))
+            if name == 'Langmuir':
+                jobs.append(('model', cfg, (name, 'small-parameters'), ctx.scale))
     res = core.pmap(work, jobs, chunk=8)
     for r in res:
         ctx.add('round_trips', r['ev'], r['nt'])
